@@ -125,7 +125,8 @@ class LocalFileObjectStore(model.AbstractObjectStore):
                 if old_obj.source == obj.source:
                     old_obj.update_from(obj)
                     return old_obj
-        self._object_cache[obj.id] = obj
+            # Insert while still holding the lock: otherwise two threads could both miss the cache and both insert
+            self._object_cache[obj.id] = obj
         return obj
 
     def get_identifiable(self, identifier: model.Identifier) -> model.Identifiable:
@@ -167,7 +168,8 @@ class LocalFileObjectStore(model.AbstractObjectStore):
         except FileNotFoundError as e:
             raise KeyError("No AAS object with id {} exists in local file database".format(x.id)) from e
         with self._object_cache_lock:
-            del self._object_cache[x.id]
+            # The object may never have been retrieved through this store instance (or may be garbage collected)
+            self._object_cache.pop(x.id, None)
         x.source = ""
 
     def __contains__(self, x: object) -> bool:
